@@ -167,8 +167,14 @@ def run(pid, tier, seed):
             wcontent[n_] = blob
             with open(os.path.join(wd, n_), "wb") as f:
                 f.write(blob)
+        # ... and paths that name nothing to print (missing file, empty file, directory without files) between them:
+        # the other paths are expanded exactly as without them, by either route
+        open(os.path.join(wd, "empty.log"), "wb").close()
+        os.makedirs(os.path.join(wd, "empty dir"))
+        for n_ in ("no such file.log", "empty.log", "empty dir"):
+            wcontent[n_] = b""
         for trial in range(3 if tier == "quick" else 12):
-            order = list(wnames)
+            order = list(wnames) + rng.sample(["no such file.log", "empty.log", "empty dir"], rng.choice([0, 1, 3]))
             rng.shuffle(order)
             want_w = b"".join(wcontent[n_] for n_ in order)
             k = rng.randrange(len(order) + 1)
